@@ -855,7 +855,9 @@ class HTTP1ServerConnection:
                     gen_log.error("Uncaught exception", exc_info=True)
                     conn.close()
                     return
-                if not ret:
+                if not ret or self.stream.closed():
+                    # Do not process requests that were already buffered
+                    # when the connection was closed.
                     return
                 await asyncio.sleep(0)
         finally:
